@@ -27,6 +27,15 @@ CHECKS = {
             'itself is checked directly on goto\'s answers and deviations are accepted only when they are one of the five listed shapes AND predicted by the model.',
             'Coq kernel + vm_compute; pretty-printer from the scope tree to Python text and the position table are harness code; if/else/try reachability '
             '(flow analysis) and import/with/except/walrus binders are outside the modelled language (partial there).'),
+    'C01': ('Coq proof of the position contract (validate_line_column + split_lines) + vm_compute correspondence; totality explored differentially over all query methods',
+            'Theorems (5, closed): a Gallina transcription of parso.split_lines(keepends) and of validate_line_column accepts a position iff it lies inside the text '
+            '(existing line, column within the line without its terminator), rejects everything else with ValueError, never yields an out-of-range index downstream, '
+            'accepts the default position for every text, and the line table concatenates back to the text for any mixture of \\n, \\r\\n, \\r, form feeds. '
+            'Tied to /repo per run: the real wrapper and the real line table are compared with the model in Coq on generated texts/positions, and the API-level outcome '
+            '(ValueError vs normal) of all position-taking Script methods is compared with the model\'s prediction. Totality of the engine is NOT a theorem: it is explored by calling '
+            'every query method and every documented attribute of the returned objects on corpus snippets, prefixes, single-token edits and token soups; any exception other '
+            'than the contract\'s ValueError is a failing input (crash classes caused by the absent typeshed are listed known findings matched by exception type + call site).',
+            'Coq kernel + vm_compute; the inference engine is not modelled (partial: exploration only for totality); typeshed stubs are absent from this tree.'),
 }
 
 NOT_YET = {
